@@ -5,7 +5,7 @@ PATCH="$1"; shift
 cd /repo || exit 2
 if ! git diff --quiet; then echo "repo has uncommitted changes"; exit 2; fi
 if ! git apply --check "$PATCH" 2>/dev/null; then
-  if git apply --3way "$PATCH" 2>/dev/null; then echo "(applied with 3way)"; git reset -q; else echo "PATCH DOES NOT APPLY: $PATCH"; git checkout -- . ; exit 3; fi
+  if git apply --3way "$PATCH" 2>/dev/null; then echo "(applied with 3way)"; git reset -q; else echo "PATCH DOES NOT APPLY: $PATCH"; git reset -q --hard HEAD; exit 3; fi
 else
   git apply "$PATCH"
 fi
